@@ -30,8 +30,8 @@ impl<P: Write> WriteBuffer for IoBuffer<P> {
                 Err(e) => {
                     if pos != 0 {
                         self.poisoned = true;
-                        return Err(e);
                     }
+                    return Err(e);
                 }
             }
         }
